@@ -4,6 +4,8 @@ package gjs
 
 import (
 	"bytes"
+	"crypto/sha256"
+	"encoding/hex"
 	"fmt"
 	"net/http"
 	"os"
@@ -43,6 +45,11 @@ type Request struct {
 	Prior []string `json:"prior,omitempty"`
 	// Twice builds the package twice in the same session and returns the second output.
 	Twice bool `json:"twice,omitempty"`
+	// Files, when set, builds exactly these files (in this order) through Session.BuildFiles,
+	// as `gopherjs build a.go b.go` does. Out must be set.
+	Files []string `json:"files,omitempty"`
+	// Hash: return only the sha256 of script and map in Result.HashJS / HashMap.
+	Hash bool `json:"hash,omitempty"`
 }
 
 // Result of one build.
@@ -53,6 +60,9 @@ type Result struct {
 	JS    []byte `json:"-"`
 	Map   []byte `json:"-"`
 	NDecl int    `json:"ndecl"`
+	HashJS  string `json:"hashJS,omitempty"`
+	HashMap string `json:"hashMap,omitempty"`
+	Size    int    `json:"size,omitempty"`
 }
 
 func classify(err error) string {
@@ -83,7 +93,17 @@ func Build(req Request) (res Result) {
 		if err := os.Chdir(dir); err != nil {
 			return nil, nil, err
 		}
-		pkg, err := s.XContext().Import(".", dir, 0)
+		// Import by the module's import path (not "."), so that several packages built in one
+		// session are told apart, as they are when named on the gopherjs command line.
+		ip := "."
+		if b, err := os.ReadFile(filepath.Join(dir, "go.mod")); err == nil {
+			for _, l := range strings.Split(string(b), "\n") {
+				if strings.HasPrefix(l, "module ") {
+					ip = strings.TrimSpace(strings.TrimPrefix(l, "module "))
+				}
+			}
+		}
+		pkg, err := s.XContext().Import(ip, dir, 0)
 		if err != nil {
 			return nil, nil, err
 		}
@@ -106,6 +126,29 @@ func Build(req Request) (res Result) {
 				return Result{Class: classify(err), Err: "prior: " + err.Error()}
 			}
 		}
+	}
+	if len(req.Files) > 0 {
+		if err := os.Chdir(req.Dir); err != nil {
+			return Result{Class: "error", Err: err.Error()}
+		}
+		reps := 1
+		if req.Twice {
+			reps = 2
+		}
+		for i := 0; i < reps; i++ {
+			if err := s.BuildFiles(req.Files, req.Out, req.Dir); err != nil {
+				return Result{Class: classify(err), Err: err.Error()}
+			}
+		}
+		js, err := os.ReadFile(req.Out)
+		if err != nil {
+			return Result{Class: "error", Err: err.Error()}
+		}
+		res = Result{OK: true, JS: js}
+		if req.Map {
+			res.Map, _ = os.ReadFile(req.Out + ".map")
+		}
+		return finishHash(req, res)
 	}
 	n := 1
 	if req.Twice {
@@ -146,6 +189,7 @@ func Build(req Request) (res Result) {
 		res = Result{OK: true, JS: buf.Bytes(), Map: mbuf.Bytes(), NDecl: nd}
 	}
 	if req.Out != "" {
+		os.MkdirAll(filepath.Dir(req.Out), 0o755)
 		if err := os.WriteFile(req.Out, res.JS, 0o644); err != nil {
 			return Result{Class: "error", Err: err.Error()}
 		}
@@ -154,6 +198,17 @@ func Build(req Request) (res Result) {
 				return Result{Class: "error", Err: err.Error()}
 			}
 		}
+	}
+	return finishHash(req, res)
+}
+
+func finishHash(req Request, res Result) Result {
+	if req.Hash && res.OK {
+		h := sha256.Sum256(res.JS)
+		res.HashJS = hex.EncodeToString(h[:])
+		hm := sha256.Sum256(res.Map)
+		res.HashMap = hex.EncodeToString(hm[:])
+		res.Size = len(res.JS)
 	}
 	return res
 }
